@@ -428,6 +428,7 @@ def execute(history, opts=None):
         ctx.fd = hashlib.sha256()
     spec = history["subject"]
     ops = history["ops"]
+    G.set_eps()  # every history starts from the default configuration
     Xo = call(build, spec)
     if isinstance(Xo, Raised):
         ctx.count("subject_unbuildable")
